@@ -2,6 +2,7 @@
 # usage: try_replay.sh <seed-id> — applies /verif/seeded/<seed-id>/patch.diff to /repo, runs the check
 # with outputs in a scratch dir, prints what the replay files say, and undoes the patch.
 s=$1; id=${s%%-*}
+if [ -n "$(git -C /repo status --short | grep -v '^??')" ]; then echo "refusing: /repo has uncommitted changes (the undo step would wipe them)"; exit 2; fi
 git -C /repo apply /verif/seeded/$s/patch.diff || exit 2
 out=/tmp/hr-$s; rm -rf $out; mkdir -p $out
 GOCV_OUT=$out /verif/bin/gocv check $id --tier quick 2>&1 | grep -E "VIOLATION" | cut -c1-250
